@@ -540,7 +540,8 @@ def replay(prop, path):
     if not lines:
         print(json.dumps(r, indent=1))
         return 0
-    C.prepare(prop)
+    cfg = PROPS[prop]
+    C.prepare(prop, v2=(cfg.get("mode") == "v2"), legacy=(cfg.get("mode") == "legacy"))
     work = C.mkwork(prop)
     try:
         res = C.run_one(lines, work, mode=r.get("harness_mode") or PROPS[prop].get("mode", "exec"), tag="replay")
